@@ -388,7 +388,7 @@ Definition rm_step (st : rstate) (o : mop) : rstate * mres :=
     | MReadStream ch since limit reverse nonce_r _ => rm_read_stream st0 ch since limit reverse nonce_r
     | MClear ch => rm_clear st0 ch
     | MTick ms => (tick st0 ms, MUnit)
-    | MCleanup _ _ => (st0, MErr)        (* handled by rm_step2 below (needs the cleanup scripts) *)
+    | MCleanup _ _ | MStats _ => (st0, MErr)        (* handled by rm_step2 below (needs the other scripts) *)
     end in
   (clear_outbox st', res).
 
@@ -403,7 +403,9 @@ End WithScripts.
 (* ---------- key TTL cleanup: runCleanupCycle -> cleanupPartition -> cleanupChannel ---------- *)
 Record cscripts := mkCS {
   cs_find_expired : list string -> list string -> rstate -> rstate * reply;
-  cs_batch_remove : list string -> list string -> rstate -> rstate * reply
+  cs_batch_remove : list string -> list string -> rstate -> rstate * reply;
+  cs_read_ordered : list string -> list string -> rstate -> rstate * reply;
+  cs_stats : list string -> list string -> rstate -> rstate * reply
 }.
 Definition cleanup_batch : Z := 100.               (* RedisMapBrokerConfig.CleanupBatchSize default *)
 Definition cleanup_channel_batch : Z := 10000.     (* cleanupChannelBatchSize *)
@@ -464,9 +466,77 @@ Fixpoint cleanup_partition (fuel : nat) (st : rstate) (node : string) (now : N) 
 Definition rm_cleanup (st : rstate) (now : N) (node : string) : rstate * mres := (cleanup_partition 20 st node now, MUnit).
 End Cleanup.
 
+(* ---------- readOrderedState, following the (score, key) cursor to the end ---------- *)
+Fixpoint parse_ordered_kv (ks vs : list reply) : list spub :=
+  match ks, vs with
+  | k :: kr, v :: vr =>
+      let key := match to_str k with inr s => s | inl _ => "" end in
+      let val := match to_str v with inr s => s | inl _ => "" end in
+      match parse_state_value val with
+      | Some (eo, _, payload) =>
+          match unpb payload with
+          | Some (_, data, _, score) => (key, eo, data, score) :: parse_ordered_kv kr vr
+          | None => parse_ordered_kv kr vr
+          end
+      | None => parse_ordered_kv kr vr
+      end
+  | _, _ => []
+  end.
+
+Section Ordered.
+Variable CS : cscripts.
+Variable cf : mcfg.
+
+Fixpoint ordered_pages (fuel : nat) (st : rstate) (ch cscore ckey : string) (limit : Z) (rev_ : option (N * string))
+         (asc : bool) (nonce : string) (acc : list spub) : rstate * mres :=
+  match fuel with
+  | O => (st, MErr)
+  | S f =>
+      let '(st', r) := cs_read_ordered CS [k_state ch; k_order ch; k_expire ch; k_meta ch; k_smeta ch]
+                         [zdec (if (limit <? 0)%Z then 0%Z else limit); cscore; ckey; nonce; millis (mc_mttl cf);
+                          if (0 <? mc_mttl cf)%Z then millis (mc_mttl cf) else "0";
+                          if is_ephemeral cf then "1" else "0"; if asc then "1" else "0"] st in
+      match as_arr r with
+      | inl _ => (st', MErr)
+      | inr l =>
+          if Nat.ltb (List.length l) 6 then (st', MErr) else
+          match as_u64 (nth 0 l RNil) with
+          | inl PErr => (st', MErr)
+          | o =>
+              let off := match o with inr n => n | inl _ => 0%N end in
+              let ep := match to_str (nth 1 l RNil) with inr s => s | inl _ => "" end in
+              let ks := match as_arr (nth 2 l RNil) with inr d => d | inl _ => [] end in
+              let vs := match as_arr (nth 3 l RNil) with inr d => d | inl _ => [] end in
+              let ns := match to_str (nth 4 l RNil) with inr s => s | inl _ => "" end in
+              let nk := match to_str (nth 5 l RNil) with inr s => s | inl _ => "" end in
+              if match rev_ with Some (_, re) => negb (String.eqb re ep) | None => false end then (st', MUnrec) else
+              let pubs := parse_ordered_kv ks vs in
+              if (String.eqb ns "" || String.eqb nk "")%bool then (st', MState (acc ++ pubs) off ep)
+              else ordered_pages f st' ch ns nk limit rev_ asc nonce (acc ++ pubs)%list
+          end
+      end
+  end.
+
+Definition rm_stats (st : rstate) (ch : string) : rstate * mres :=
+  let '(st', r) := cs_stats CS [k_state ch] [] st in
+  (st', match as_arr r with
+        | inr [RInt z] => MCount (Z.to_N z)
+        | inr [x] => match to_str x with
+                     | inr s => match parse_zdec s with Some z => MCount (Z.to_N z) | None => MErr end
+                     | inl _ => MErr
+                     end
+        | _ => MErr
+        end).
+End Ordered.
+
 Definition rm_step2 (SC : mscripts) (CS : cscripts) (cf : mcfg) (st : rstate) (o : mop) : rstate * mres :=
   match o with
   | MCleanup now node => let '(st', r) := rm_cleanup CS cf (clear_outbox st) now node in (clear_outbox st', r)
+  | MStats ch => let '(st', r) := rm_stats CS (clear_outbox st) ch in (clear_outbox st', r)
+  | MReadState ch rev_ limit key asc nonce _ =>
+      if (mc_ordered cf && String.eqb key "" && negb (limit =? 0)%Z)%bool then
+        let '(st', r) := ordered_pages CS cf 50 (clear_outbox st) ch "" "" limit rev_ asc nonce [] in (clear_outbox st', r)
+      else rm_step SC cf st o
   | _ => rm_step SC cf st o
   end.
 Fixpoint rm_run2 (SC : mscripts) (CS : cscripts) (cf : mcfg) (st : rstate) (ops : list mop) : list mres :=
